@@ -28,6 +28,7 @@ const (
 	mvStr
 	mvList
 	mvRec     // a record: named fields (a struct value the rule describes)
+	mvNil     // a nil pointer (to a record)
 	mvRecList // a list of records
 )
 
@@ -95,6 +96,15 @@ func (ev *miniEval) expr(e ast.Expr) mval {
 		if v, ok := ev.env[o]; ok {
 			return v
 		}
+		// a package-level table: the value of its initialiser
+		if pv, isVar := o.(*types.Var); isVar && pv.Pkg() != nil && pv.Parent() == pv.Pkg().Scope() && ev.prog != nil && ev.depth < 4 {
+			if init := ev.prog.pkgVarInit(pv); init != nil {
+				ev.depth++
+				v := ev.expr(init)
+				ev.depth--
+				return v
+			}
+		}
 		return mval{}
 	case *ast.BasicLit:
 		if s, ok := constString(ev.info, x); ok {
@@ -110,10 +120,15 @@ func (ev *miniEval) expr(e ast.Expr) mval {
 			}
 		}
 		if _, isPkg := ev.info.Uses[identOf(x.X)].(*types.PkgName); !isPkg {
-			if r := ev.expr(x.X); r.k == mvRec {
+			r := ev.expr(x.X)
+			if r.k == mvRec {
 				if v, ok := r.rec[x.Sel.Name]; ok {
 					return v
 				}
+				return mval{}
+			}
+			if r.k == mvNil {
+				ev.fail("`" + exprStr(x) + "` dereferences a nil pointer")
 				return mval{}
 			}
 		}
@@ -160,16 +175,25 @@ func (ev *miniEval) expr(e ast.Expr) mval {
 				}
 			}
 		}
-		if t := ev.info.TypeOf(x); t != nil && t.String() == "[]string" {
-			var l []string
-			for _, el := range x.Elts {
-				v := ev.expr(el)
-				if v.k != mvStr {
-					return mval{}
+		if t := ev.info.TypeOf(x); t != nil {
+			// a list of strings, or of values of a string type (v1.ErrorType, state names)
+			isStrList := t.String() == "[]string"
+			if sl, isSlice := t.Underlying().(*types.Slice); isSlice {
+				if b, isBasic := sl.Elem().Underlying().(*types.Basic); isBasic && b.Kind() == types.String {
+					isStrList = true
 				}
-				l = append(l, v.s)
 			}
-			return mList(l)
+			if isStrList {
+				var l []string
+				for _, el := range x.Elts {
+					v := ev.expr(el)
+					if v.k != mvStr {
+						return mval{}
+					}
+					l = append(l, v.s)
+				}
+				return mList(l)
+			}
 		}
 	case *ast.UnaryExpr:
 		if x.Op == token.NOT {
@@ -240,6 +264,9 @@ func (ev *miniEval) expr(e ast.Expr) mval {
 				if a.k == mvList && isNilIdent(ev.info, x.Y) {
 					return mBool((len(a.list) == 0) == (x.Op == token.EQL))
 				}
+				if (a.k == mvRec || a.k == mvNil) && isNilIdent(ev.info, x.Y) {
+					return mBool((a.k == mvNil) == (x.Op == token.EQL))
+				}
 			}
 		}
 	case *ast.IndexExpr:
@@ -257,6 +284,13 @@ func (ev *miniEval) expr(e ast.Expr) mval {
 }
 
 func (ev *miniEval) call(x *ast.CallExpr) mval {
+	// a conversion between string (or integer) types keeps the value
+	if tv, ok := ev.info.Types[x.Fun]; ok && tv.IsType() && len(x.Args) == 1 {
+		if v := ev.expr(x.Args[0]); v.k == mvStr || v.k == mvInt || v.k == mvBool {
+			return v
+		}
+		return mval{}
+	}
 	if id, ok := x.Fun.(*ast.Ident); ok {
 		if _, isB := ev.info.Uses[id].(*types.Builtin); isB {
 			switch id.Name {
@@ -423,6 +457,23 @@ func (ev *miniEval) block(list []ast.Stmt) mctl {
 }
 
 func (ev *miniEval) assign(l ast.Expr, v mval) {
+	if sel, ok := ast.Unparen(l).(*ast.SelectorExpr); ok {
+		// a field of a record held in a variable (records are values: the variable gets a new record)
+		if id, isID := ast.Unparen(sel.X).(*ast.Ident); isID {
+			o := ev.info.Uses[id]
+			if base, has := ev.env[o]; has && base.k == mvRec {
+				nr := map[string]mval{}
+				for k, f := range base.rec {
+					nr[k] = f
+				}
+				nr[sel.Sel.Name] = v
+				ev.env[o] = mval{k: mvRec, rec: nr}
+				return
+			}
+		}
+		ev.fail("store to `" + exprStr(l) + "` is not understood")
+		return
+	}
 	if id, ok := ast.Unparen(l).(*ast.Ident); ok {
 		if id.Name == "_" {
 			return
@@ -490,6 +541,10 @@ func (ev *miniEval) stmt(st ast.Stmt, label string) mctl {
 						if o.Type().String() == "[]string" {
 							ev.env[o] = mval{k: mvList}
 						}
+					case *types.Pointer:
+						ev.env[o] = mval{k: mvNil}
+					case *types.Struct:
+						ev.env[o] = mval{k: mvRec, rec: map[string]mval{}}
 					}
 				}
 			}
@@ -682,4 +737,69 @@ func (ev *miniEval) stmt(st ast.Stmt, label string) mctl {
 	}
 	ev.fail(fmt.Sprintf("statement %T is not understood", st))
 	return mctl{}
+}
+
+// pkgVarInit returns the initialiser expression of a package-level variable of
+// the module declared as `var x = <expr>` (nil when it has none or is assigned
+// anywhere: the table must be a constant of the program).
+func (p *Prog) pkgVarInit(v *types.Var) ast.Expr {
+	for _, pkg := range p.ModPkgs() {
+		if pkg.Types != v.Pkg() {
+			continue
+		}
+		var init ast.Expr
+		for _, f := range pkg.Syntax {
+			for _, d := range f.Decls {
+				gd, ok := d.(*ast.GenDecl)
+				if !ok || gd.Tok != token.VAR {
+					continue
+				}
+				for _, sp := range gd.Specs {
+					vs := sp.(*ast.ValueSpec)
+					for i, nm := range vs.Names {
+						if pkg.TypesInfo.Defs[nm] == types.Object(v) && i < len(vs.Values) {
+							init = vs.Values[i]
+						}
+					}
+				}
+			}
+		}
+		if init == nil {
+			return nil
+		}
+		written := false
+		for _, p2 := range p.ModPkgs() {
+			for _, f := range p2.Syntax {
+				ast.Inspect(f, func(n ast.Node) bool {
+					if as, ok := n.(*ast.AssignStmt); ok {
+						for _, l := range as.Lhs {
+							root := ast.Unparen(l)
+							for {
+								switch y := root.(type) {
+								case *ast.IndexExpr:
+									root = ast.Unparen(y.X)
+									continue
+								case *ast.SelectorExpr:
+									if _, isPkg := p2.TypesInfo.Uses[identOf(y.X)].(*types.PkgName); isPkg {
+										root = y.Sel
+										continue
+									}
+								}
+								break
+							}
+							if id, ok := root.(*ast.Ident); ok && p2.TypesInfo.Uses[id] == types.Object(v) {
+								written = true
+							}
+						}
+					}
+					return true
+				})
+			}
+		}
+		if written {
+			return nil
+		}
+		return init
+	}
+	return nil
 }
